@@ -42,7 +42,8 @@ LEVEL_TEXT = (
     "The complete product of outcome sequences (up to limit+1 attempts, plus over-call detection), limits 1-4, four caught-set forms, five "
     "delay forms (None, int, float, function, zero), sync and async, inside and outside a scope is executed - an exhaustive enumeration of the "
     "stated quantifier - and each run is compared with a reference loop on invocation count, identity of the returned value / raised exception, "
-    "pauses and delay-function arguments; the async variant additionally gets a cancellation injected in every pause."
+    "pauses and delay-function arguments; the async variant additionally gets a cancellation injected in every pause. "
+    "Callables that fail without a Python frame of their own (C-level callables, prepared futures) are retried like any other."
 )
 LEVEL_NOTE = "Trusted: the reference loop in hv/props/c14.py, VirtualLoop time, CPython asyncio.sleep. Thorough adds wrapped-call durations and 2-argument signatures; both tiers are complete for the base product."
 
